@@ -80,6 +80,10 @@ def bvmat(R, ntaxa, ntrait, names=None):
 
 
 # ---------------------------------------------------------------- optimisation problems
+def _first2(x, latent, **k):
+    return numpy.array([latent[0], latent[1:].sum()])
+
+
 def _sumtr(x, latent, **k):
     return latent.sum(keepdims=True)
 
@@ -88,7 +92,7 @@ def _identtr(x, latent, **k):
     return latent
 
 
-def ebv_problem(kind, ebv, nobj=1, ndecn=None, con=False, maxint=3, eq=False, obj_wt=None, caps=False, space=None):
+def ebv_problem(kind, ebv, nobj=1, ndecn=None, con=False, maxint=3, eq=False, obj_wt=None, caps=False, space=None, ocs=None):
     """Small EBV selection problem in one of the four encodings (kind: subset/real/integer/binary)."""
     from pybrops.breed.prot.sel.prob.EstimatedBreedingValueSelectionProblem import (
         EstimatedBreedingValueSubsetSelectionProblem as PS, EstimatedBreedingValueRealSelectionProblem as PR,
@@ -134,6 +138,13 @@ def ebv_problem(kind, ebv, nobj=1, ndecn=None, con=False, maxint=3, eq=False, ob
         k = ndecn or max(1, n // 3)
         # candidate set: all individuals in index order, or an arbitrary (unsorted, partial) set of them
         cand = numpy.arange(n) if space is None else numpy.array(space, dtype=int)
+        if ocs is not None:
+            # non-separable family: optimal contribution (norm of the mean relationship column + mean breeding values)
+            from pybrops.breed.prot.sel.prob.OptimalContributionSelectionProblem import OptimalContributionSubsetSelectionProblem as PO
+            Cm = numpy.triu(numpy.array(ocs, dtype=float))
+            tr2 = _sumtr if nobj == 1 else _first2
+            return PO(ebv=ebv, C=Cm, ndecn=k, decn_space=cand, decn_space_lower=numpy.repeat(int(cand.min()), k),
+                      decn_space_upper=numpy.repeat(int(cand.max()), k), nobj=nobj, obj_trans=tr2, **kw)
         return PS(ebv=ebv, ndecn=k, decn_space=cand, decn_space_lower=numpy.repeat(int(cand.min()), k),
                   decn_space_upper=numpy.repeat(int(cand.max()), k), nobj=nobj, obj_trans=tr, **kw)
     if kind == "real":
